@@ -253,7 +253,8 @@ func IsPermanentError(err error) bool {
 		return false
 	}
 
-	if _, ok := err.(*TimeoutError); ok {
+	var timeoutErr *TimeoutError
+	if errors.As(err, &timeoutErr) {
 		return false
 	}
 	if errors.Is(err, context.DeadlineExceeded) {
@@ -264,6 +265,8 @@ func IsPermanentError(err error) bool {
 
 	permanentPatterns := []string{
 		"revision mismatch",
+		"wrong last sequence", // NATS client: revision-checked update lost the race
+		"key exists",          // NATS client: create on an existing key
 		"key not found",
 		"permission denied",
 		"bucket not found",
@@ -324,7 +327,8 @@ func IsTransientError(err error) bool {
 		return true
 	}
 
-	if _, ok := err.(*TimeoutError); ok {
+	var timeoutErr *TimeoutError
+	if errors.As(err, &timeoutErr) {
 		return true
 	}
 
